@@ -3,8 +3,9 @@
 A region body is split into statements (token level, no parser).  A statement is KEPT when it mentions a tracked identifier;
 compound statements (`if` / `while` / `for` / `loop` / plain block) that are kept are sliced recursively inside their
 blocks; everything else is replaced by blank lines (line count preserved).  `let` statements whose initializer takes a
-mutable borrow of a tracked variable (`&mut x`, `x.*_mut()`), or that bind a closure mentioning one, add the bound
-names to the tracked set (an alias must not escape the slice).  The last expression of a block (no `;`) is never dropped.
+mutable borrow of a tracked variable (the initializer IS `&mut x..` or `x..._mut()`), or that bind a closure mentioning
+one, add the bound names to the tracked set (an alias must not escape the slice).  ASSUMED: a function that takes `&mut x`
+as an argument does not return an alias of it that is then used without naming x.  The last expression of a block (no `;`) is never dropped.
 
 A dropped statement that contains `?` is replaced by `if nondet__() { return Err(err_any__()); }` so that its early exit
 stays a path of the slice; statements containing return / continue / break are always kept.
@@ -87,8 +88,11 @@ def slice_text(text, tracked_rx):
             return
         expr = src[toks[eq].end:toks[b].end]
         alias = False
+        e0 = expr.strip().lstrip('=').strip()
         for name in list(tracked):
-            if re.search(r'&\s*mut\s+(\*\s*)?%s\b' % re.escape(name), expr) or re.search(r'\b%s\b[\w.()]*\.\w*_mut\s*\(' % re.escape(name), expr):
+            # the initializer IS a mutable borrow of a tracked variable (`&mut x`, `&mut x.f`, `&mut *x`) or ends in a
+            # `.._mut()` accessor on it.  A call that merely takes `&mut x` as an argument is assumed not to return an alias.
+            if re.match(r'^&\s*mut\s+(\*\s*)?%s\b[\w.]*\s*;?$' % re.escape(name), e0) or re.match(r'^%s\b[\w.()]*\.\w*_mut\s*\(\s*\)\s*;?$' % re.escape(name), e0):
                 alias = True
             if re.search(r'(^|[=(,\s])(move\s*)?\|[^|]*\|', expr) and re.search(r'\b%s\b' % re.escape(name), expr):
                 alias = True
